@@ -214,7 +214,7 @@ type pubRec struct {
 }
 
 func runC08(r *kit.Run) {
-	n := int64(r.Scale(840, 100000))
+	n := int64(r.Scale(840, 60000))
 	if r.Build != "plain" {
 		n /= 6
 	}
